@@ -59,3 +59,31 @@ let iter_stdin (f : t -> unit) =
   with End_of_file -> ()
 
 let b2s b = if b then "1" else "0"
+
+(* the same atom printer as harness/sx.go Q(): plain tokens bare, everything else quoted with \xHH *)
+let is_plain (s : string) =
+  s <> "" &&
+  (let ok = ref true in
+   Stdlib.String.iter (fun ch ->
+     if not ((ch >= 'a' && ch <= 'z') || (ch >= 'A' && ch <= 'Z') || (ch >= '0' && ch <= '9')
+             || Stdlib.List.mem ch ['_'; '-'; '.'; ':'; '/'; '*'; '+'; '='; '!'; '<'; '>'; '&'; '|'])
+     then ok := false) s;
+   !ok)
+
+let q (s : string) : string =
+  if is_plain s then s else begin
+    let b = Buffer.create 16 in
+    Buffer.add_char b '"';
+    Stdlib.String.iter (fun ch ->
+      let c = Char.code ch in
+      if c >= 0x20 && c < 0x7f && ch <> '"' && ch <> '\\' then Buffer.add_char b ch
+      else Buffer.add_string b (Printf.sprintf "\\x%02x" c)) s;
+    Buffer.add_char b '"';
+    Buffer.contents b
+  end
+
+(* harness/common.go rulesKey / sortedRulesKey *)
+let rule_key (r : string list) : string = "[" ^ Stdlib.String.concat "|" (Stdlib.List.map q r) ^ "]"
+let rules_key (rs : string list list) : string = Stdlib.String.concat "" (Stdlib.List.map rule_key rs)
+let sorted_rules_key (rs : string list list) : string =
+  Stdlib.String.concat "" (Stdlib.List.sort compare (Stdlib.List.map rule_key rs))
